@@ -148,7 +148,7 @@ class Ctx:
         self.seq = 0
         self.obligations = []  # (kind, description, z3-ready data)
         self.atoms = {}
-        self.reads = None  # collector active while a value is being built
+        self.ntab = 0  # tables created so far (each GArray gets an id; its atoms are S<id>[...])
 
     def atom(self, *a):
         return self.named_atom("S", *a)
@@ -332,6 +332,10 @@ class GArray:
 
     def __init__(self, dims, tail):
         self.dims, self.tail = [Aff.of(d) for d in dims], tuple(int(t) for t in tail)
+        C = CTX[0]
+        self.tid = C.ntab if C is not None else 0
+        if C is not None:
+            C.ntab += 1
 
     @property
     def shape(self):
@@ -373,12 +377,18 @@ class GArray:
             for pos, tp in zip(tail_axes, tpos):
                 full[pos] = tp
             data[tuple(full)] = C.atom(*(eidx + (tpos,))) if reading else None
-        ev = dict(kind="read" if reading else "write", idx=eidx, cons=cons, bounds=bounds, loops=list(C.loops), seq=None)
+        ev = dict(kind="read" if reading else "write", idx=eidx, cons=cons, bounds=bounds, loops=list(C.loops), seq=None, tid=self.tid)
         return data, sym, ev
 
     def __getitem__(self, idx):
         C = CTX[0]
-        data, sym, ev = self._view(idx, True)
+        real_atom = C.atom
+        if self.tid:
+            C.atom = lambda *a: C.named_atom("S%d" % self.tid, *a)
+        try:
+            data, sym, ev = self._view(idx, True)
+        finally:
+            C.atom = real_atom
         return GVal(data, sym, [ev])
 
     def __setitem__(self, idx, val):
@@ -392,12 +402,23 @@ class GArray:
             r["seq"] = C.seq
             r["wcons"] = ev["cons"]
             r["widx"] = ev["idx"]
+            r["wtid"] = self.tid
             C.events.append(r)
         # aligned symbolic axes: equal length; the value may not have a symbolic axis the target lacks
+        ev["len1"] = []
         for slot, axs in val.sym.items():
             if slot not in sym:
-                raise alg.Undecided("value has a symbolic-length axis the target does not have")
-        ev["lens"] = [(sym[slot][0], ax) for slot, axs in val.sym.items() for ax in axs]
+                # the target's axis there has length 1 (or is absent): numpy broadcasts only if the value's axis has exactly
+                # one element - an obligation; its generic position is then 0
+                if slot <= data.ndim and data.shape[data.ndim - slot] != 1:
+                    raise alg.Undecided("value has a symbolic-length axis where the target has a longer concrete axis")
+                ev["len1"].extend(axs)
+                pvar = Aff.var("p%d" % slot)
+                ev["cons"] = ev["cons"] + [("ge", pvar, Aff.of(0)), ("lt", pvar, Aff.of(1))]
+        for r in C.events[-len(val.reads):] if val.reads else []:
+            if r.get("seq") == C.seq and r["kind"] == "read":
+                r["wcons"] = ev["cons"]
+        ev["lens"] = [(sym[slot][0], ax) for slot, axs in val.sym.items() if slot in sym for ax in axs]
         vdata = val.data
         while vdata.ndim > data.ndim and vdata.shape[0] == 1:
             vdata = vdata[0]
@@ -410,7 +431,8 @@ class GSpecTable(GArray):
     (atoms `name[k,j,i]`); reading it records nothing - it is not the table under construction"""
 
     def __init__(self, dims, tail, name):
-        GArray.__init__(self, dims, tail)
+        self.dims, self.tail = [Aff.of(d) for d in dims], tuple(int(t) for t in tail)
+        self.tid = -1
         self.name = name
 
     def __getitem__(self, idx):
@@ -432,30 +454,42 @@ class GIota:
 
     __array_ufunc__ = None
 
-    def __init__(self, D, axis=0, ndim=1):
-        self.D, self.axis, self.ndim = Aff.of(D), axis, ndim
+    def __init__(self, D, axis=0, ndim=1, offset=0):
+        self.D, self.axis, self.ndim, self.offset = Aff.of(D), axis, ndim, Aff.of(offset)
+
+    def reshape(self, *shape):
+        """arange(lo, hi).reshape(1, ..., -1, ..., 1): the index value along one axis of symbolic length"""
+        if len(shape) == 1 and isinstance(shape[0], (tuple, list)):
+            shape = tuple(shape[0])
+        if self.ndim != 1 or sorted(shape)[1:] != [1] * (len(shape) - 1) or shape.count(-1) != 1:
+            raise alg.Undecided("reshape of an index array to %r" % (shape,))
+        pos = shape.index(-1)
+        slot = len(shape) - pos
+        data = _np.empty([1] * len(shape), dtype=object)
+        data[...] = (self.offset + Aff.var("p%d" % slot)).to_sym()
+        return GVal(data, {slot: [SymAxis(Aff.of(0), [self.D])]}, [])
 
     def __getitem__(self, idx):
         if not isinstance(idx, tuple):
             idx = (idx,)
         if self.ndim == 1 and all(x is None or x == slice(None) for x in idx) and sum(1 for x in idx if x is not None) == 1:
-            return GIota(self.D, axis=[k for k, x in enumerate(idx) if x is not None][0], ndim=len(idx))
+            return GIota(self.D, axis=[k for k, x in enumerate(idx) if x is not None][0], ndim=len(idx), offset=self.offset)
         dims = [self.D if a == self.axis else Aff.of(1) for a in range(self.ndim)]
         points, axes = _index(idx, dims, ())
         n = len(axes)
         val, sym, shape = None, {}, []
         if self.axis in points:
-            val = points[self.axis]
+            val = self.offset + points[self.axis]
         for pos, axd in enumerate(axes):
             shape.append(1)
             if axd[0] == "sym":
                 if axd[1] != self.axis:
                     raise alg.Undecided("symbolic slice on a length-1 axis of an index array")
                 slot = n - pos
-                val = axd[2].lo + Aff.var("p%d" % slot)
+                val = self.offset + axd[2].lo + Aff.var("p%d" % slot)
                 sym[slot] = [axd[2]]
             elif axd[0] == "one" and axd[1] == self.axis:
-                val = axd[2]
+                val = self.offset + axd[2]
         data = _np.empty(shape, dtype=object)
         data[...] = val.to_sym()
         return GVal(data, sym, [])
@@ -477,8 +511,10 @@ class GNp:
         return self._p.zeros(shape, *a, **k)
 
     def arange(self, n, *a, **k):
-        if isinstance(n, Aff):
+        if isinstance(n, Aff) and not a:
             return GIota(n)
+        if a and len(a) == 1 and (isinstance(n, Aff) or isinstance(a[0], Aff)):
+            return GIota(Aff.of(a[0]) - Aff.of(n), offset=n)
         return self._p.arange(n, *a, **k)
 
 
